@@ -111,6 +111,42 @@ fn typing(t: &mut Tape, ctx: &mut Ctx) -> CheckResult {
         let l = wf(ctx, "optic-wf", from_lax(&l), "lax map_adapted(f with pending)")?.strictify().map_err(|e| ctx.fail("optic-wf", e))?;
         require_iso(ctx, "lax-optic-respects-pending", &l, &wpa, "lax Optic::map_adapted on an argument with pending unifications")?;
     }
+    // lax optics whose generator images still carry (label-consistent) pending unifications: the
+    // image denotes its quotient
+    {
+        use crate::functor_model::OpKey;
+        use std::collections::BTreeMap;
+        let mut pf: BTreeMap<OpKey, Vec<(usize, usize)>> = BTreeMap::new();
+        let mut pr: BTreeMap<OpKey, Vec<(usize, usize)>> = BTreeMap::new();
+        let mut oq = o.clone();
+        let mut any = false;
+        for k in o.fwd.ops.keys() {
+            for (side, table, pend) in [(0, &o.fwd, &mut pf), (1, &o.rev, &mut pr)] {
+                let img = &table.ops[k];
+                let q = if t.chance(1, 2) { gen::pending_pairs(t, img, 2, true) } else { vec![] };
+                any |= q.iter().any(|(a, b)| a != b);
+                let st = crate::model::Lax { d: img.clone(), q: q.clone() }.strictify().expect("consistent");
+                if side == 0 {
+                    oq.fwd.ops.insert(k.clone(), st);
+                } else {
+                    oq.rev.ops.insert(k.clone(), st);
+                }
+                pend.insert(k.clone(), q);
+            }
+        }
+        if any {
+            ctx.class("optic-images-with-pending-pairs");
+            ctx.set_dump(format!("{}\npending in fwd images = {:?}\npending in rev images = {:?}", ctx.dump, pf, pr));
+            let (wq, wqa) = optic_image(f, &oq);
+            let lop = LOpticPending(o.clone(), pf, pr);
+            let l = lop.map_arrow(to_lax_d(f));
+            let l = wf(ctx, "optic-wf", from_lax(&l), "lax Optic(f), images with pending pairs")?.strictify().map_err(|e| ctx.fail("optic-wf", e))?;
+            require_iso(ctx, "lax-optic-images-with-pending", &l, &wq, "lax Optic::map_arrow for generator images with pending unifications")?;
+            let l = lop.map_adapted(to_lax_d(f));
+            let l = wf(ctx, "optic-wf", from_lax(&l), "lax map_adapted(f), images with pending pairs")?.strictify().map_err(|e| ctx.fail("optic-wf", e))?;
+            require_iso(ctx, "lax-optic-images-with-pending", &l, &wqa, "lax Optic::map_adapted for generator images with pending unifications")?;
+        }
+    }
     // functoriality
     let og = wf(ctx, "optic-wf", sv::op_optic(&o, g), "Optic(g)")?;
     let fg = f.compose(g).expect("composable");
